@@ -53,3 +53,46 @@ func VH_C02() {
 	db.Close()
 	vf.Cover("C02.end")
 }
+
+// VH_C02_ManyFiles: more than ten tables in one level (file names 0-10.db sort before 0-2.db),
+// close/reopen, further flushes and a compaction, close/reopen: every key keeps its value.
+// Concrete keys; values symbolic.
+func VH_C02_ManyFiles() {
+	logger.SetLogger(vlog{})
+	n := vf.Param("N", 12)
+	cfg := Config{SkipListMaxLevel: 2, SkipListP: 0.5, MemtableByteThreshold: 1, ImmutableBuffer: 1, DataBlockByteThreshold: 1,
+		L0TargetNum: vf.Param("L0T", 12), LevelRatio: 10}
+	dir := vf.Dir()
+	db, err := Open(dir, cfg)
+	vf.Assert("C02.many.open", err == nil)
+	mo := newVModel()
+	var keys []string
+	put := func(i int) {
+		k := "key" + string(rune('a'+i))
+		v := []byte{vf.Byte("mv" + string(rune('a'+i)))}
+		keys = append(keys, k)
+		vf.Assert("C02.many.commit", db.Update(func(txn *Txn) error { return txn.Set(k, v) }) == nil)
+		mo.set(k, v)
+		vDrain(db)
+	}
+	for i := 0; i < n; i++ {
+		put(i)
+	}
+	mo.check(db, "C02.many.before", keys)
+	db.Close()
+	db, err = Open(dir, cfg)
+	vf.Assert("C02.many.reopen", err == nil)
+	mo.check(db, "C02.many.reopened", keys)
+	put(n)     // a further flush into the level that holds idx >= 10
+	put(n + 1) // and one that triggers the compaction
+	mo.check(db, "C02.many.after", keys)
+	l0, deeper := vfiles(db)
+	vf.ObsInt("C02.many.l0", l0)
+	vf.ObsInt("C02.many.deeper", deeper)
+	db.Close()
+	db, err = Open(dir, cfg)
+	vf.Assert("C02.many.reopen2", err == nil)
+	mo.check(db, "C02.many.reopened2", keys)
+	db.Close()
+	vf.Cover("C02.many.end")
+}
